@@ -61,9 +61,9 @@ Qed.
 Print Assumptions C10_steppers_preserve_div_free.
 
 (* make_incompressible of the source (exponax/_spectral.py; the arithmetic between fft and ifft is re-translated on every run by
-   harness/translate/linops.py, together with build_laplace_operator which it calls) is the model's make_incompressible_mode at every
+   harness/translate/linops.py -> Gen/OperatorsGen.v, together with build_laplace_operator which it calls) is the model's make_incompressible_mode at every
    mode, for every number of axes; with C10_make_incompressible_is_leray and C10_leray_projection the SOURCE text is divergence free *)
-From EXV Require Import Gen.LinOps Tie.LinOpsTie.
+From EXV Require Import Gen.LinOps Gen.OperatorsGen Tie.LinOpsTie Tie.IncompressibleTie.
 Theorem C10_code_make_incompressible_is_model : forall (F : FieldT) (d u : list F),
   gen_make_incompressible F d u = make_incompressible_mode F d u
   /\ ((2 <= length d <= 3)%nat -> length u = length d -> (lapm F d = 0 -> Forall (fun x => x = 0) d) -> lapm F d <> 0 ->
